@@ -6,7 +6,10 @@ from checks.common import CheckRun
 EXPLANATION = (
     "Contract chain K1..K9 (DESIGN §3). P tier (unbounded): K3 contracts on the real _lower_logical_and / _lower_logical_or "
     "(result denotes [l != 0 and/or r != 0] on the requested type, IR builder and _is_boolean_producer used by contract) "
-    "and the constant-folding functions the expression lowering relies on (shared with C11). B tier (bounded, never "
+    "and the constant-folding functions the expression lowering relies on (shared with C11); lower_binary_op for all 19 operators, the logical-chain fold, the "
+    "conditional value, the wire-merge rewriting of additions (_attempt_wire_merge, from the S2 network-sum assumption), the result typing of binary "
+    "operators, the IR builder's constructors, the placer (one placement per node carrying its operator and operands in order) and the emitter's "
+    "combinator configuration are under contract. B tier (bounded, never "
     "counted as proved): every program of an enumerated scope of expression shapes is compiled by the real pipeline; the "
     "emitted blueprint is executed symbolically by the S2 circuit model and compared by SMT, for ALL int32 valuations of "
     "the named inputs, with the S3 source semantics, output by output (value and signal type)."
@@ -23,4 +26,13 @@ def run(tier):
             f"{len(progs)} programs: all binary operators over leaf pairs, unary, projection, cond:value, nested "
             f"(precedence/associativity) and DAG reuse; optimize={optimize}; inputs: all int32 (SMT)",
             cr.known, opts={"optimize": optimize})
+    from bounded import pipeline
+    from bounded.contract_enum import run_contract_enum
+    from contracts import c02
+    pipeline.ensure_repo()
+    iargs = c02.inject_colors_arg_sets()
+    cr.bounded_check(run_contract_enum, "operand-wire-colours-box", c02.inject_colors, iargs,
+                     f"{len(iargs)} combinators: left operand plain / produced by an optimised-away node / selected from a bundle / wire-merged (same or split colours) / integer, right "
+                     "operand signal / integer, red / green, arithmetic / decider with condition rows: every signal operand reads exactly the colour(s) it is delivered on "
+                     "(contract evaluated on the real LayoutPlanner._inject_wire_colors_into_placements)")
     return cr.finish()
